@@ -33,7 +33,10 @@ def gen_main(ctx, n, **kw):
         if r < 0.07 and 'use_internal' not in kw:
             # species trees with unary nodes (names from the tree: synthesised names repeat at a unary node)
             c = gen.gen_case(ctx.rng, max_leaves=8, unary=True, use_internal=True, **kw)
-        elif r < 0.15:
+        elif r < 0.14 and 'nfam' not in kw:
+            # deep narrow histories: duplications whose copies survive in single sub-lineages several levels down
+            c = gen.gen_case(ctx.rng, nleaves=ctx.rng.randint(6, 10), dup_heavy='narrow', **kw)
+        elif r < 0.22:
             c = gen.gen_case(ctx.rng, max_leaves=4, **kw)
         elif r < 0.85 or not big:
             c = gen.gen_case(ctx.rng, max_leaves=10, **kw)
@@ -255,6 +258,10 @@ def check_C01(ctx):
 # ------------------------------------------------------------------ C02
 def check_C02(ctx):
     Ls = loaded_stream(ctx, ctx.scale(400, 6000))
+    if FORCED is None:
+        deep = core.load_cases([regress.deep_nest_case(270)])
+        ctx.record_case(deep[0].case)
+        Ls = Ls + deep
     wf = analyze(Ls, lambda L: [['wf']])
     for L, w in zip(Ls, wf):
         if L.impl[0] != 'ok':
@@ -2434,6 +2441,13 @@ def check_C13(ctx):
             xgz = os.path.join(work, 'd.orthoxml.gz')
             with gzip.open(xgz, 'wt') as f:
                 f.write(c.xml())
+            # the same document as a gzip file made of several members (cat a.gz b.gz; RFC 1952): still one document
+            xgzm = os.path.join(work, 'dm.orthoxml.gz')
+            text_ = c.xml()
+            cuts_ = sorted(set([0, len(text_) // 3, 2 * len(text_) // 3, len(text_)]))
+            with open(xgzm, 'wb') as f:
+                for a_, b_ in zip(cuts_, cuts_[1:]):
+                    f.write(gzip.compress(text_[a_:b_].encode('utf-8')))
             no_ids = not any(g[1] is not None for g in c.groups)
             configs = []
             trees = [('newick_string', c.newick(), {}), ('newick', nwf, {})]
@@ -2441,7 +2455,7 @@ def check_C13(ctx):
                 if named_ok:      # PhyloXML cannot express a node without name (the unlabelled root of a Newick tree)
                     trees.append(('phyloxml', pxf, {'phyloxml_leaf_name_tag': tag, 'phyloxml_internal_name_tag': tag}))
             xmls = [('string', c.xml(), True), ('string-one-chunk', c.xml(one_line=True), True), ('file', xf, False),
-                    ('file-one-line', xf1, False), ('gzip', xgz, False)]
+                    ('file-one-line', xf1, False), ('gzip', xgz, False), ('gzip-multi-member', xgzm, False)]
             for tf, tv, tk in trees:
                 for ui in ((True,) if any(len(n_.kids) == 1 for n_ in c.tree.nodes()) else (True, False)):
                     for xn, xv, as_str in xmls:
